@@ -254,7 +254,7 @@ func CheckVDR(o *Obs, p *pgen.Program, m *pgen.Model, r *Report, mode string, tr
 				if exists && chunkLevel {
 					r.add("C14", "chunk-file-survives", fmt.Sprintf("chunk-level file of splitting stage %s still present after completion: %s", f.CallPath, o.Case.Canon(w.Path)), nil)
 				} else if exists && volatile && !(w.Tok != "" && keep[w.Tok]) && !underKept(w.Path, e.Written, keep) {
-					r.add("C14", "volatile-file-survives", fmt.Sprintf("file %s written by volatile stage call %s (mode %s) survives although no top-level output or retain names it", o.Case.Canon(w.Path), f.CallPath, mode), nil)
+					r.add("C14", "volatile-file-survives"+consumedHow(p, f.CallPath, w.Path), fmt.Sprintf("file %s written by volatile stage call %s (mode %s) survives although no top-level output or retain names it", o.Case.Canon(w.Path), f.CallPath, mode), nil)
 				}
 			}
 			if !exists && !covered(w.Path) && !covered(vrun.StripUniq(w.Path)) {
@@ -273,4 +273,68 @@ func underKept(path string, ws []vrun.Written, keep map[string]bool) bool {
 		}
 	}
 	return false
+}
+
+// consumedHow classifies how the output owning a surviving file is consumed
+// by other calls of the same pipeline.
+func consumedHow(p *pgen.Program, callPath, filePath string) string {
+	base := filepath.Base(filePath)
+	// probe file names: <phase>_<outparam>[.<index/key>...].dat
+	i := strings.IndexByte(base, '_')
+	if i < 0 {
+		return ""
+	}
+	rest := base[i+1:]
+	out := rest
+	if j := strings.IndexByte(rest, '.'); j >= 0 {
+		out = rest[:j]
+	}
+	parts := strings.Split(callPath, "/")
+	if len(parts) < 2 {
+		return ""
+	}
+	callName := parts[len(parts)-1]
+	// enclosing pipeline
+	pl := p.Pipeline(parts[0])
+	for k := 1; k < len(parts)-1 && pl != nil; k++ {
+		var next *pgen.Pipeline
+		for _, c := range pl.Calls {
+			if c.Name() == parts[k] {
+				next = p.Pipeline(c.Callee)
+			}
+		}
+		pl = next
+	}
+	if pl == nil {
+		return ""
+	}
+	asSplit, asPlain := false, false
+	for _, c := range pl.Calls {
+		for _, b := range c.Binds {
+			var walk func(e *pgen.Exp, split bool)
+			walk = func(e *pgen.Exp, split bool) {
+				if e == nil {
+					return
+				}
+				if e.Kind == pgen.ERefCall && e.Id == callName && len(e.Path) > 0 && e.Path[0] == out {
+					if split {
+						asSplit = true
+					} else {
+						asPlain = true
+					}
+				}
+				for _, x := range e.Elems {
+					walk(x, split)
+				}
+			}
+			walk(b.Exp, b.Split)
+		}
+	}
+	switch {
+	case asSplit:
+		return ":output-consumed-as-map-source"
+	case asPlain:
+		return ":output-consumed-by-call"
+	}
+	return ":output-not-consumed"
 }
